@@ -556,6 +556,7 @@ func runC12(c *Ctx) {
 
 	r3 := c.Rule("R3", "print decisions test presence, options or built-in flags only (query printers)", 10)
 	guardDiscipline(c, r3, "query")
+	wholeNodeDrop(c, r3, "query")
 	// Value.String / Type.String are printers too
 	for _, name := range []string{"ast.(*Value).String", "ast.(*Type).String"} {
 		fn := p.Func(name)
@@ -694,6 +695,7 @@ func runC13(c *Ctx) {
 
 	r4 := c.Rule("R4", "print decisions test presence, options or built-in flags only (schema printers)", 15)
 	guardDiscipline(c, r4, "schema")
+	wholeNodeDrop(c, r4, "schema")
 
 	r5 := c.Rule("R5", "the loader infers default roots exactly when the formatter may have omitted the schema block", 3)
 	rootInferenceRule(c, r5)
